@@ -51,6 +51,14 @@ cmp("parse_emc_digi_id.theta", r["theta"], t, [p, t, f]); cmp("parse_emc_digi_id
 ra = p3.parse_emc_digi_id(ak.Array(ids)); cmp("parse_emc_digi_id(ak).gid", ak.to_numpy(ra["gid"]), ge, [p, t, f])
 r = p3.parse_emc_gid(ge, with_pos=False)
 cmp("parse_emc_gid.gid", r["gid"], ge, [ge]); cmp("parse_emc_gid.part", r["part"], p, [ge]); cmp("parse_emc_gid.theta", r["theta"], t, [ge]); cmp("parse_emc_gid.phi", r["phi"], f, [ge])
+# the same array object parsed again after it was re-filled in place (a preallocated read buffer): the gid of the CURRENT content
+for pname, pf, ids_all, want_all, keys in (("parse_mdc_digi_id", p3.parse_mdc_digi_id, d.get_mdc_digi_id(w, l, np.zeros(len(l), dtype=np.int64)), g, [l, w]),
+                                           ("parse_emc_digi_id", p3.parse_emc_digi_id, d.get_emc_digi_id(p, t, f), ge, [p, t, f])):
+    half = len(ids_all) // 2
+    buf = np.array(ids_all[:half], dtype=np.uint32); first = pf(buf); first_gid = np.array(first["gid"]).copy()
+    buf[:] = np.array(ids_all[half:2 * half], dtype=np.uint32); second = pf(buf)
+    cmp(f"{pname}(same array re-filled in place).gid", second["gid"], want_all[half:2 * half], [k[half:2 * half] for k in keys])
+    cmp(f"{pname}(result kept across calls).gid", first["gid"], first_gid, [k[:half] for k in keys])
 # one identifier at a time, as a plain Python int and as a NumPy scalar (a separate code path from arrays): every wire / crystal
 import time as _t
 _t0 = _t.time()
